@@ -920,6 +920,12 @@ func classifyCells(fn *ssa.Function) map[*ssa.Alloc]cellKind {
 					if kind != cellNone && closureWrites(x, al) {
 						kind = cellVolatile
 					}
+				case *ssa.Defer:
+					// `defer f(&x)`: the callee sees the cell only when the function exits; inside the body the
+					// cell behaves like any other local (a deferred rollback that inspects the named error result)
+					if cf := CalleeFn(x); cf == nil || cf.Blocks == nil || paramStored(cf, x, al) {
+						kind = cellNone
+					}
 				default:
 					kind = cellNone
 				}
@@ -1013,4 +1019,34 @@ func emptyMapOf(l Lit) ssa.Value {
 		return nil
 	}
 	return lc.Call.Args[0]
+}
+
+// paramStored: the deferred callee keeps the address it receives (stores it somewhere or passes it on) instead of only
+// reading / writing through it.
+func paramStored(cf *ssa.Function, d *ssa.Defer, al *ssa.Alloc) bool {
+	for i, a := range d.Call.Args {
+		if a != ssa.Value(al) || i >= len(cf.Params) {
+			continue
+		}
+		refs := cf.Params[i].Referrers()
+		if refs == nil {
+			continue
+		}
+		for _, r := range *refs {
+			switch x := r.(type) {
+			case *ssa.UnOp:
+				if x.Op != token.MUL {
+					return true
+				}
+			case *ssa.Store:
+				if x.Addr != ssa.Value(cf.Params[i]) {
+					return true
+				}
+			case *ssa.DebugRef:
+			default:
+				return true
+			}
+		}
+	}
+	return false
 }
